@@ -94,7 +94,14 @@ def dft2(f, alpha, shape=None, shift=(0, 0), offset=(0, 0), unitary=True, out=No
 
     E1, E2 = _dft2_matrices(m, n, M, N, alpha_row, alpha_col, shift_row, shift_col,
                             offset_row, offset_col)
-    F = np.dot(E1.dot(f), E2, out=out)
+    if out is None or (out.flags.c_contiguous and out.dtype == np.complex128):
+        F = np.dot(E1.dot(f), E2, out=out)
+    else:
+        # np.dot only writes into C-contiguous arrays of its own result type;
+        # any other buffer (a view into a larger array, Fortran order) is
+        # filled by assignment
+        out[...] = np.dot(E1.dot(f), E2)
+        F = out
 
     # now calculate the answer, without reallocating memory
     if unitary:
